@@ -152,6 +152,21 @@ CLAIMED["C16"] = (
     "DESIGN.md §5 C16",
 )
 
+CLAIMED["C02"] = (
+    "Kernel-checked invariant: the in-memory package graph is closed (part identities and names unique, every r:* id used "
+    "in a part's XML is a relationship of that part, every internal target is a part of the package) and stays closed "
+    "under every well-formed delta (add part, simultaneous rename, add/retarget/drop relationship, add/drop reference, "
+    "parts leaving together), hence - by induction - at EVERY prefix of EVERY history whose steps are well-formed.  The "
+    "real library is tied to the model through its OBSERVED deltas: after every public-API operation of seeded histories "
+    "(all op kinds of the property, saves at seeded prefixes, decks with out-of-order slide part names) the package graph "
+    "is snapshotted and the Lean checker decides each step well-formed; every saved zip is judged by the closure "
+    "predicates and re-opened and compared with the in-memory presentation.  The writer itself is C01's model/theorems.",
+    "Trusted: snapshot/delta extraction; XML abstracted to its r:* multiset (r:id=\"\" names no relationship); what each "
+    "operation does is observed, not predicted; zip-level closure of the written file is oracle-checked.",
+    "Lean 4 proof (closure invariant under well-formed deltas, induction over histories) + observed-delta refinement check + zip/re-open oracles",
+    "DESIGN.md §5 C02",
+)
+
 NOT_YET = {}
 
 
